@@ -199,14 +199,15 @@ class Run(object):
 
 
 def analyse(args):
-    mirs, scen, T, qto = args
+    mirs, scen, T, qto = args[:4]
+    shared = len(args) > 4 and args[4]        # burst scenario: every task carries the SAME symbolic time (one variable)
     crate = get_crate(mirs)
     smt = Smt(qto)
     it = Interp(crate, smt, Models())
     it.deadline = time.time() + (240 if qto <= 5000 else 1500)      # per scenario; exhausted -> reported as inconclusive
     ex = Explorer(smt, 4000)
     K = len(scen)
-    out = dict(scenario=[list(s) for s in scen], T=T, paths=0, findings=[], unsupported=[], checks=0)
+    out = dict(scenario=[list(s) for s in scen], T=T, paths=0, findings=[], unsupported=[], checks=0, shared=bool(shared))
 
     def sched_sample(j, logs_parent_time):
         sc = scen[j]
@@ -223,6 +224,11 @@ def analyse(args):
         links = []      # isample_j == (time_j as u64): every u64 below 2^40 is the truncation of some f64 in range, so the queue logic
                         # is explored over the integer view alone and the FP link is only added to extract a witness
         for j in range(K):
+            if shared and j > 0:
+                times.append(times[0])
+                tf_ids.append(tf_ids[0])
+                ints.append(ints[0])
+                continue
             tb = z3.BitVec('time_%d' % j, 64)
             tf = it.smt.fp_from_bits(tb)
             it.smt.add(z3.And(z3.Not(z3.fpIsNaN(tf)), z3.Not(z3.fpIsInf(tf)), z3.fpGEQ(tf, z3.FPVal(0.0, S.F64)), z3.fpLT(tf, z3.FPVal(float(1 << 40), S.F64))))
@@ -302,7 +308,7 @@ def analyse(args):
         tm = {}
         if f.model is not None:
             for j in range(K):
-                tm[j] = f.model.eval(z3.BitVec('time_%d' % j, 64), model_completion=True).as_long()
+                tm[j] = f.model.eval(z3.BitVec('time_%d' % (0 if shared else j), 64), model_completion=True).as_long()
         out['findings'].append(dict(kind=f.kind, msg=f.msg, where=f.where, times=tm))
     out['unsupported'] = ['%s @ %s' % u for u in ex.unsupported][:5]
     out['truncated'] = ex.truncated
@@ -315,9 +321,17 @@ def analyse(args):
 # ---------------------------------------------------------------------------------------------------
 # replay of a witness on the real VM + WASM runtimes through a generated mimium program
 # ---------------------------------------------------------------------------------------------------
-def witness_program(scen, times_bits, T):
-    """a mimium program realising the scenario: task j adds 2^j to a global accumulator; dsp returns the accumulator"""
+def witness_program(scen, times_bits, T, unit=False):
+    """a mimium program realising the scenario: task j adds 2^j (1 in a burst scenario) to a global accumulator; dsp returns the accumulator"""
     K = len(scen)
+    if unit:
+        t0 = repr(b2f(times_bits.get(0, 0)))
+        src = 'let acc = 0.0\nfn tk(){\n  acc = acc + 1.0\n}\n'
+        if scen[0][0] == 'init':
+            src += ''.join('let _ = tk@%s\n' % t0 for _ in range(K))
+            return src + 'fn dsp(){\n  acc\n}\n'
+        body = ''.join('    tk@%s\n' % t0 for _ in range(K))
+        return src + 'fn dsp(){\n  let _k = if (now == %s) {\n%s    1.0\n  } else { 0.0 }\n  acc\n}\n' % (float(scen[0][1]), body)
     vals = [repr(b2f(times_bits.get(j, 0))) for j in range(K)]
     src = 'let acc = 0.0\n'
     # define tasks in reverse dependency order so children exist
@@ -348,6 +362,11 @@ def run(tier, seed):
     scen = scenarios(K, T, 32 if quick else 300, rng)
     scen2 = scenarios(2, 4, 12, rng)
     jobs = [(mirs, s, T, 5000 if quick else 30000) for s in scen] + [(mirs, s, 4, 5000) for s in scen2]
+    # bursts: "regardless of how many tasks are pending" -- N tasks handed over in ONE window (global init / one dsp call), all with the same
+    # symbolic time, N beyond any plausible fixed-size queue (a bounded hand-over queue, a fixed-capacity heap ...)
+    for n in ((70, 260) if quick else (70, 260, 1030)):
+        jobs.append((mirs, tuple(('init',) for _ in range(n)), 4, 5000 if quick else 30000, True))
+        jobs.append((mirs, tuple(('dsp', 0) for _ in range(n)), 4, 5000 if quick else 30000, True))
     import multiprocessing as mp
     with mp.get_context('fork').Pool(16) as pool:
         results = pool.map(analyse, jobs, chunksize=1)
@@ -360,15 +379,17 @@ def run(tier, seed):
             rep.stubs[k] = rep.stubs.get(k, 0) + v
         npaths += r['paths']
         nchecks += r['checks']
-        tag = str(r['scenario'])
+        tag = str(r['scenario']) if len(r['scenario']) <= 8 else '%d x %s (burst, shared time)' % (len(r['scenario']), r['scenario'][0])
+        if len(r['scenario']) > 8:
+            r['scenario_short'] = tag
         for u in r['unsupported']:
             rep.inconclusive.append('%s: unsupported: %s' % (tag, u[:200]))
         if r['truncated']:
             rep.inconclusive.append('%s: path limit' % tag)
         for f in r['findings'][:1]:
-            rec = dict(scenario=r['scenario'], T=r['T'], msg=f['msg'], kind=f['kind'], where=f.get('where'), times={k: b2f(v) for k, v in f['times'].items()})
+            rec = dict(scenario=r.get('scenario_short') or r['scenario'], T=r['T'], msg=f['msg'], kind=f['kind'], where=f.get('where'), times={k: b2f(v) for k, v in f['times'].items()})
             # replay: a generated mimium program on the real runtimes with the scheduler plugin
-            src = witness_program([tuple(s) for s in r['scenario']], f['times'], r['T'])
+            src = witness_program([tuple(s) for s in r['scenario']], f['times'], r['T'], unit=r.get('shared'))
             p = os.path.join(common.CACHE, 'c11_witness_%d.mmm' % len(rep.violations))
             os.makedirs(common.CACHE, exist_ok=True)
             open(p, 'w').write(src)
@@ -379,7 +400,7 @@ def run(tier, seed):
                 wo = [o[0] if o else None for o in rr['wasm'].get('outputs', [])]
                 rec['replay'] = dict(program=src, vm_outputs=[b2f(x) if x is not None else None for x in vo], wasm_outputs=[b2f(x) if x is not None else None for x in wo],
                                      vm_panic=rr['vm'].get('panic'), wasm_panic=rr['wasm'].get('panic'))
-                exp = expected_outputs([tuple(s) for s in r['scenario']], f['times'], r['T'])
+                exp = expected_outputs([tuple(s) for s in r['scenario']], f['times'], r['T'], unit=r.get('shared'))
                 rec['replay']['expected'] = exp
                 confirmed = bool(rr['vm'].get('panic') or rr['wasm'].get('panic')) or [b2f(x) if x is not None else None for x in vo] != exp or [b2f(x) if x is not None else None for x in wo] != exp
             except Exception as e:
@@ -390,9 +411,9 @@ def run(tier, seed):
             else:
                 rep.inconclusive.append('%s: "%s" did not reproduce through a generated program on the real runtimes' % (tag, f['msg'][:80]))
         if len(rep.samples) < 6:
-            rep.samples.append(dict(scenario=r['scenario'], horizon=r['T'], feasible_paths=r['paths'], claims_checked=r['checks']))
+            rep.samples.append(dict(scenario=r.get('scenario_short') or r['scenario'], horizon=r['T'], feasible_paths=r['paths'], claims_checked=r['checks']))
     cov = dict(states=max(1, npaths), transitions=max(1, rep.stats['queries']), traces_validated_against_impl=rep.replays, scenarios=len(jobs), claims_checked=nchecks,
-               bounds='K = %d tasks x horizon T = %d samples (+ all K=2,T=4 scenarios): scheduling points enumerated (global init / dsp of sample j / from a running task, incl. self-rescheduling chains), '
+               bounds='bursts of 70 / 260 (thorough: 1030) tasks with one shared symbolic time handed over in one window (global init, one dsp call), horizon 4; K = %d tasks x horizon T = %d samples (+ all K=2,T=4 scenarios): scheduling points enumerated (global init / dsp of sample j / from a running task, incl. self-rescheduling chains), '
                       'task times symbolic f64 in [0, 2^40) satisfying the property precondition floor(time) > scheduling sample' % (K, T))
     assumptions = ['closure hand-over (RuntimeHandle::{get_arg_f64,get_arg_raw,resolve_closure,execute_closure}, WasmEngine::execute_function) is stubbed: executing a task = logging (id, sample) and issuing its child schedule calls',
                    'BinaryHeap is modelled as a list ordered by calling the crate\'s own Ord::cmp MIR; mpsc channel as FIFO list; Arc/Mutex as identity wrappers',
@@ -400,9 +421,12 @@ def run(tier, seed):
     return rep.finish(cov, assumptions)
 
 
-def expected_outputs(scen, times_bits, T):
+def expected_outputs(scen, times_bits, T, unit=False):
     """reference: task j fires at floor(time_j) if its scheduler ran; acc visible in dsp of the same sample"""
     K = len(scen)
+    if unit:
+        f0 = int(b2f(times_bits.get(0, 0)))
+        return [float(K) if t >= f0 else 0.0 for t in range(T)]
     fire = {}
     for j in range(K):
         fire[j] = int(b2f(times_bits.get(j, 0)))
